@@ -518,6 +518,42 @@ fn case_glif(env: &mut Env, idx: u64, rng: &mut Rng, log: &mut CaseLog, keep: bo
     }
 }
 
+/// class predicate `ds-doctype-in-text`, on the bytes alone: a `<!DOCTYPE ..>` that sits inside the
+/// text content of an element (non-blank text before it since the previous tag, non-blank text
+/// after it up to an end tag)
+pub fn doctype_in_text(b: &[u8]) -> bool {
+    for at in find_all(b, b"<!DOCTYPE") {
+        let before = &b[..at];
+        let prev = before.iter().rposition(|c| *c == b'>').map(|p| p + 1).unwrap_or(0);
+        if before[prev..].iter().all(|c| c.is_ascii_whitespace()) {
+            continue;
+        }
+        // end of the declaration: the first `>` outside an internal subset `[ .. ]`
+        let mut depth = 0i32;
+        let mut end = None;
+        for (i, c) in b[at..].iter().enumerate() {
+            match c {
+                b'[' => depth += 1,
+                b']' => depth -= 1,
+                b'>' if depth <= 0 => {
+                    end = Some(at + i + 1);
+                    break;
+                }
+                _ => {}
+            }
+        }
+        let Some(end) = end else { continue };
+        let next = b[end..].iter().position(|c| *c == b'<').map(|p| end + p).unwrap_or(b.len());
+        if b[end..next].iter().all(|c| c.is_ascii_whitespace()) {
+            continue;
+        }
+        if b[next..].starts_with(b"</") {
+            return true;
+        }
+    }
+    false
+}
+
 fn case_ds(env: &mut Env, idx: u64, rng: &mut Rng, log: &mut CaseLog, keep: bool) {
     let i = if (idx as usize) < env.dss.len() { idx as usize } else { rng.below(env.dss.len() as u64) as usize };
     let j = rng.below(env.dss.len() as u64) as usize;
@@ -527,6 +563,9 @@ fn case_ds(env: &mut Env, idx: u64, rng: &mut Rng, log: &mut CaseLog, keep: bool
     log.desc = desc;
     if max_depth(&bytes) > DEPTH_CLASS {
         log.tag("deep-nesting");
+    }
+    if doctype_in_text(&bytes) {
+        log.tag("ds-doctype-in-text");
     }
     if keep {
         log.files.push(("input.designspace".into(), bytes.clone()));
@@ -925,6 +964,9 @@ pub fn file_case(path: &Path, work: &Path, rng: &mut Rng, log: &mut CaseLog) {
             exercise_font(&deep, log, &font, rng, true);
         }
     } else if path.extension().map(|e| e == "designspace").unwrap_or(false) {
+        if std::fs::read(path).map(|b| doctype_in_text(&b)).unwrap_or(false) {
+            log.tag("ds-doctype-in-text");
+        }
         if let Some(Ok(d)) = log.guard("DesignSpaceDocument::load", || DesignSpaceDocument::load(path), |r| r.is_ok()) {
             let q = work.join("out.designspace");
             if let Some(Ok(())) = log.guard("DesignSpaceDocument::save", || d.save(&q), |r| r.is_ok()) {
@@ -1368,10 +1410,15 @@ pub mod api {
         };
         let nops = 1 + rng.below(24);
         let mut stop = false;
-        for _ in 0..nops {
+        // C03_SKIP=i,j,..: operations whose effects are discarded (same random stream, so the other
+        // operations are unchanged): used by the driver to shrink a failing history
+        let skips: Vec<u64> = std::env::var("C03_SKIP").ok().map(|s| s.split(',').filter_map(|x| x.parse().ok()).collect()).unwrap_or_default();
+        for opi in 0..nops {
             if stop {
                 break;
             }
+            let saved = if skips.contains(&opi) { Some((font.clone(), tags.clone(), desc.len())) } else { None };
+            log.mute = saved.is_some();
             let before = log.panics.len();
             let op = rng.below(40);
             match op {
@@ -1545,7 +1592,16 @@ pub mod api {
                     match k {
                         0 => {
                             let dates = ["2020/01/01 00:00:00", "2020/00/00 00:00:00", "2020/13/01 00:00:00", "2020/01/01 24:00:00", "ééééééééé1", "2020/01/01 00:00:0", "                   ", "////////// ::::::::", "2020/01/01 00:00:00\u{0}", "2020/1/01 000:00:00", "99999999999999999999999", "2020/01/01T00:00:00", "٢٠٢٠/٠١/٠١", "2020/01/01 00:00:6é"];
-                            fi.open_type_head_created = Some(rng.pick(&dates).to_string());
+                            let mut d = rng.pick(&dates).to_string();
+                            if rng.chance(1, 2) {
+                                // a 19-byte string with one multi-byte char somewhere inside a valid date
+                                let (ch, w) = *rng.pick(&[("é", 2usize), ("日", 3), ("😀", 4)]);
+                                let at = rng.below((19 - w + 1) as u64) as usize;
+                                let base = "2020/01/01 00:00:00";
+                                d = format!("{}{}{}", &base[..at], ch, &base[at + w..]);
+                            }
+                            desc.push_str(&format!("[openTypeHeadCreated={:?}]", d));
+                            fi.open_type_head_created = Some(d);
                         }
                         1 => {
                             let n = rng.below(4);
@@ -1628,6 +1684,12 @@ pub mod api {
                     let g = guideline(rng, &mut tags);
                     log.guard("Font::guidelines_mut", || font.guidelines_mut().push(g), |_| true);
                 }
+            }
+            if let Some((f, t, dl)) = saved {
+                font = f;
+                tags = t;
+                desc.truncate(dl);
+                log.mute = false;
             }
             if log.panics.len() > before {
                 stop = true; // a panic inside a mutating call may leave the value half-updated
